@@ -510,6 +510,8 @@ class Exec:
         self.registry = registry
         self.errs = errs
         self.opts = opts or {}
+        for bt in self.opts.get("bv_types", []):
+            cfront.BV_TYPES.add(bt)
         self.ast, self.info = cfront.extract_function(fname, func)
         self.layouts = cfront.record_layouts(fname)
         self.heap0 = Heap0(self)
@@ -1156,6 +1158,10 @@ class Exec:
                     self.oblige(st, "OVERFLOW", in_range(r, t), w)
                     return Val(t, z3.simplify(r))
                 return Val(t, wrap(r, t))
+            if self.opts.get("bv_types") and not t.signed:
+                # bit-set code: keep the shifted word a bit-vector (shift amount checked against the width)
+                self.oblige(st, "SHIFT", z3.And(y >= 0, y < t.bits), w)
+                return Val(t, to_bv(x, t.bits) << to_bv(y, t.bits))
             return Val(t, self.shift_var(st, x, y, t, w, left=True))
         if op == ">>":
             if z3.is_int_value(z3.simplify(y)):
